@@ -4049,6 +4049,13 @@ EmitX86M:
   ASMJIT_ASSERT(rm_rel->op_type() == OperandType::kMem);
   ASMJIT_ASSERT((opcode & Opcode::kCDSHL_Mask) == 0);
 
+  // FPU 'wait' forms (FSTSW, FSTCW, FSTENV, FSAVE) are FWAIT (9B) followed by the no-wait instruction: FWAIT must be emitted
+  // first, otherwise the override prefixes would apply to FWAIT instead of the instruction that accesses memory.
+  if ((opcode.v & Opcode::kPP_FPUMask) == Opcode::kPP_9B) {
+    writer.emit8(0x9B);
+    opcode &= ~uint32_t(Opcode::kPP_FPUMask);
+  }
+
   // Emit override prefixes.
   rm_info = mem_info_table[rm_rel->as<Mem>().base_and_index_types()];
   writer.emit_segment_override(rm_rel->as<Mem>().segment_id());
